@@ -1,7 +1,93 @@
-(* C02 - Inbound ASCII lines decode to exactly the panel state they denote.  (work in progress) *)
-From RP Require Import Lib.Base Model.MsgIn Model.DecIn Proofs.InTotal.
+(* C02 - Inbound ASCII lines decode to exactly the panel state they denote.
+   Only statements here; each closed by [exact] of a lemma from Proofs/.
 
-Theorem c02_dec_total : forall json_state json_msgs nc_parse ls,
-  exists ms, dec_in json_state json_msgs nc_parse ls = Ok ms.
-Proof. exact dec_in_total. Qed.
-Print Assumptions c02_dec_total.
+   [dec_in] = model of RawPanelASCIIstringsToInboundMessages (Model/DecIn.v), its three
+   encoding/json calls being oracle arguments [json_state], [json_msgs], [nc_parse];
+   [in_read] / [sem_in_lines] = the independent reference reader (Spec/GrammarIn.v), which
+   classifies EVERY byte string as Wf (well-formed, with its effects), Malformed (known key
+   name, arguments outside the grammar: the property is silent) or NotGrammar;
+   [run_msgs p ms] = the panel reached from p by what the decoded messages mean. *)
+From RP Require Import Lib.Base Lib.Strings Model.Gfx Model.MsgIn Model.DecIn Spec.DenoteIn Spec.GrammarIn
+  Proofs.InBits Proofs.InDec Proofs.InDecMain Proofs.InSeq Proofs.InTotal Proofs.StringsProofs.
+
+(* one well-formed line of ANY kind except a graphics chunk (flow words, all command
+   keywords with all alternative spellings, HWC# / HWCc# / HWCx# / HWCt# / HWCrawADCValues#
+   with id lists, all register forms, JSON lines through the oracle): the decoder appends
+   messages that mean exactly the line's effects and leaves its graphics locals untouched.
+   Alternative spellings covered by [in_read]: omitted trailing text fields, colour with /
+   without bit 7, one / two-argument brightness, leading zeros. *)
+Theorem c02_dec_line_sound_partial :
+  forall json_state json_msgs nc_parse st l es,
+    in_read json_state json_msgs nc_parse l = Wf (LEffs es) ->
+    exists ms, dec_line json_state json_msgs nc_parse st l = Ok (st, ms) /\
+               forall p, apply_effs p (den_msgs ms) = apply_effs p es.
+Proof. exact dec_line_wf. Qed.
+Print Assumptions c02_dec_line_sound_partial.
+
+(* MAIN THEOREM, _partial: graphics chunk lines excluded ([plain_line] = well-formed with panel
+   effects, or not of the grammar; the HWCg* transfer is C05's).  Sequences of any length,
+   well-formed and non-grammar lines interleaved in any way, any start panel: same panel,
+   effects in line order.  JSON lines: the field-level meaning of the JSON text is the
+   oracle's (encoding/json), i.e. partial in that respect too. *)
+Theorem c02_dec_in_sound_partial :
+  forall json_state json_msgs nc_parse ls p x,
+    forallb (plain_line json_state json_msgs nc_parse) ls = true ->
+    exists ms, dec_in json_state json_msgs nc_parse ls = Ok ms /\
+               run_msgs p ms = fst (sem_in_lines json_state json_msgs nc_parse (p, x) ls).
+Proof. exact dec_in_sound_nogfx. Qed.
+Print Assumptions c02_dec_in_sound_partial.
+
+(* FULL STRENGTH, all byte strings: a line whose keyword / key name is not part of the grammar
+   is decoded into exactly one empty message - no state change, command or register write -
+   whatever the graphics locals and the oracles are. *)
+Theorem c02_nongrammar_no_effect :
+  forall json_state json_msgs nc_parse st l,
+    in_read json_state json_msgs nc_parse l = NotGrammar ->
+    dec_line json_state json_msgs nc_parse st l = Ok (st, [empty_msg]).
+Proof. exact dec_line_nongrammar. Qed.
+Print Assumptions c02_nongrammar_no_effect.
+
+Theorem c02_dec_in_ignores_nongrammar :
+  forall json_state json_msgs nc_parse l p,
+    nongrammar json_state json_msgs nc_parse l = true ->
+    exists ms, dec_in json_state json_msgs nc_parse [l] = Ok ms /\ run_msgs p ms = p.
+Proof. exact dec_in_ignores_nongrammar. Qed.
+Print Assumptions c02_dec_in_ignores_nongrammar.
+
+(* one effect per line: every line other than a JSON message array yields at most one
+   message (all byte strings, graphics included) *)
+Theorem c02_one_message_per_line :
+  forall json_state json_msgs nc_parse st l r,
+    (forall c t, l = c :: t -> c <> 91) ->
+    dec_line json_state json_msgs nc_parse st l = Ok r -> (length (snd r) <= 1)%nat.
+Proof. exact dec_line_one_msg. Qed.
+Print Assumptions c02_one_message_per_line.
+
+(* the HWCt# normalisation rules: decoding the fields and normalising = the reader's record *)
+Theorem c02_text_fields : forall fs t, rd_text fs = Some t ->
+  norm_text (dec_text fs) = t /\ text_is_empty (dec_text fs) = false.
+Proof. exact dec_text_sound. Qed.
+Print Assumptions c02_text_fields.
+
+(* strconv.Atoi as modelled (Lib/Strings.v, incl. overflow-before-junk) reads the grammar's decimals *)
+Theorem c02_decimal_agreement : forall s n, rd_nat s = Some n -> n < two63 -> atoi s = n.
+Proof. exact rd_nat_atoi. Qed.
+Print Assumptions c02_decimal_agreement.
+
+From Coq Require Import String.
+Open Scope string_scope.
+Open Scope list_scope.
+Open Scope Z_scope.
+(* Non-vacuity: concrete lines (alternative spellings: trailing fields omitted, second label
+   without pair mode, colour with readability bit, id list, leading zero, one-argument
+   brightness, an unknown line in between) satisfy the hypothesis, and the decoded messages. *)
+Definition c02_example_lines : list (list Z) :=
+  map Sexp.str ["HWC#1,2=292"; "HWCc#7=196"; "FooBar=1"; "HWCt#3=|||Title||a|b"; "PanelBrightness=04"; "Flag#007=5"].
+Example c02_nonvacuous :
+  forallb (plain_line (fun _ => empty_state) (fun _ => []) (fun _ => None)) c02_example_lines = true /\
+  nongrammar (fun _ => empty_state) (fun _ => []) (fun _ => None) (Sexp.str "FooBar=1") = true /\
+  exists ms, dec_in (fun _ => empty_state) (fun _ => []) (fun _ => None) c02_example_lines = Ok ms /\
+             List.length ms = 6%nat /\
+             DenoteIn.sx_panel (run_msgs panel0 ms) =
+             DenoteIn.sx_panel (fst (sem_in_lines (fun _ => empty_state) (fun _ => []) (fun _ => None) (panel0, None) c02_example_lines)).
+Proof. split; [vm_compute; reflexivity|]. split; [vm_compute; reflexivity|]. eexists. split; [vm_compute; reflexivity|]. split; vm_compute; reflexivity. Qed.
